@@ -106,7 +106,7 @@ def _rm_entry(name):
 
 def _read(g):
     return {'res': g.get('res', 'miss'), 'val': int(g.get('val', 0) or 0), 'ver': int(g.get('ver', 0) or 0),
-            'flag': int(g.get('flag', 0) or 0)}
+            'flag': int(g.get('flag', 0) or 0), 'c': int(g.get('c', -1) if g.get('c') is not None else -1)}
 
 
 def normalize_l1(events):
@@ -115,6 +115,22 @@ def normalize_l1(events):
     out = []
     reopened = False
     gced = False
+    # crash family: the Recovered observations are produced at the end of the scenario; move each to the
+    # RecoveredHere marker of the operation it belongs to (pure reordering by the logged op index)
+    rec_by_op = {}
+    for e in events:
+        if e.get('a') == 'Recovered':
+            rec_by_op.setdefault(e.get('op'), []).append(e)
+    if rec_by_op:
+        ev2 = []
+        for e in events:
+            if e.get('a') == 'Recovered':
+                continue
+            if e.get('a') == 'RecoveredHere':
+                ev2.extend(rec_by_op.get(e.get('op'), []))
+                continue
+            ev2.append(e)
+        events = ev2
     for e in events:
         if e.get('l') != 1:
             continue
@@ -168,6 +184,17 @@ def normalize_l1(events):
         elif a == 'ReadAll':
             out.append({'a': 'ReadAll', 'n': n, 'reads': {k: _read(g) for k, g in e['reads'].items()},
                         'afteropen': reopened, 'aftergc': gced})
+        elif a == 'RecoveredHere':
+            continue
+        elif a == 'Recovered':
+            reads = e.get('reads') or {}
+            out.append({'a': 'Recovered', 'n': n, 'started': bool(e.get('started')),
+                        'refusal': (e.get('fatal') or e.get('err') or ''), 'childdied': bool(e.get('childdied')),
+                        'reads': {k: _read(g) for k, g in reads.items()} or {'_': _read({})},
+                        'durable': [{'k': d[0], 'ver': d[1], 'val': d[2]} for d in e.get('durable', [])],
+                        'nrecs': int(e.get('nrecs', 0)), 'kind': e.get('kind', ''), 'phase': e.get('phase', ''),
+                        'torn': int(e.get('torn', 0)), 'inside': bool(e.get('inside')), 'unaligned': bool(e.get('unaligned')),
+                        'ingc': bool(e.get('ingc')), 'hintahead': e.get('hintahead') or [], 'op': int(e.get('op', -1))})
         elif a == 'End':
             out.append({'a': 'End', 'n': n})
         else:
@@ -202,7 +229,11 @@ def tlc_run(module, cfg, rundir, workers=NCPU, timeout=1800, extra=(), java=()):
     cmd = ['tlc', '-workers', str(workers), '-metadir', meta, '-config', cfgname, *extra, module + '.tla']
     t0 = time.time()
     try:
-        jopts = ['-Djava.io.tmpdir=' + rundir, *java]
+        # many JVMs run side by side (16 shards, several checks): keep each one's GC threads few
+        jopts = ['-Djava.io.tmpdir=' + rundir, '-XX:ParallelGCThreads=%d' % (2 if workers == 1 else 4)]
+        if workers == 1:
+            jopts.append('-XX:TieredStopAtLevel=1')
+        jopts += list(java)
         r = sh(cmd, cwd=rundir, timeout=timeout, env=dict(os.environ, JAVA_TOOL_OPTIONS=' '.join(jopts)))
         out, rc = r.stdout, r.returncode
     except subprocess.TimeoutExpired as ex:
